@@ -102,6 +102,8 @@ var acsLocationsOdd = []string{
 	"https://sp%d.example/acs/%d?zone=eu&app=crm&b=2&a=1",
 	"https://sp%d.example/acs/%d?key&flag=;x&sp=%%20y",
 	"https://sp%d.example/acs|v2/%d?RelayState=fixed&tenant=blue",
+	// a route of a single-page application: the only '?' of the URL sits behind '#'
+	"https://sp%d.example/app%d#/saml/acs?tenant=1",
 }
 
 var allBindings = []string{world.BindPost, world.BindRedirect, world.BindArtifact, world.BindPAOS, world.BindOther}
@@ -266,6 +268,17 @@ func ssoRender(c SSOCase, now time.Time) (obs.HTTPReq, *spsim.Signed, error) {
 					is.Declare("x", "urn:example:not-saml")
 				}
 			}
+		case "misnamespaced-child":
+			// an element named like a part of the message, in the other SAML namespace, in front of the Conditions (which have
+			// expired): whatever a reader makes of the stranger, the conditions that follow it are part of the message
+			pos := len(tree.Children)
+			for i, ch := range tree.Children {
+				if ch.Kind == xt.KindElem && ch.Elem.Local == "Conditions" && ch.Elem.Space == world.NSSAML {
+					pos = i
+					break
+				}
+			}
+			tree.InsertAt(pos, xt.NewElem(tree.Prefix, tree.Space, d.Param))
 		case "dup-issuer":
 			if is := tree.Child(world.NSSAML, "Issuer"); is != nil {
 				cp := is.Clone()
